@@ -179,6 +179,81 @@ example : roleMatch 2 2 = true ∧ roleMatch 2 0 = false ∧ roleMatch 9 5 = tru
 
 example : roleSum c11D 2 [10, 20, 30, 40, 50] 0 = 50 ∧ roleSum c11D 1 [10, 20, 30, 40, 50] 0 = 0 := by decide
 
+/-- THE TWO MODELS OF THE GROUP OPERATIONS AGREE.  The expression language states its group
+    operations over index sets (`RuleSys.f1`: sum over members, projection, and the role
+    operations 10–89); `Group.lean` transcribes the code of `GroupPopulation` (`numpy.bincount`,
+    the position loop of `reduce`, masks) and is tied to the real code by C10's correspondence
+    and to the per-group definitions by C10's theorems.  On the population of any well-formed
+    declaration (`declPop`: one `(group, role)` per person, `nG` groups) they compute the same
+    arrays, for every role digit (`roleOfDigit`: 9 = no role, 8 = the first role with its
+    sub-roles, else a flattened role): sum, `sum(role)`, `nb_persons(role)`, `any(role)`,
+    `project`, `project(role)`, and — for a population with at least one person — `max`, `min`,
+    `all` (the `±inf` of a group without holder read as 0, as the formulas of the language do). -/
+theorem C11_group_ops_are_the_group_model (d : Decl) (hm : d.mem.length = d.nP) (hg : ∀ g ∈ d.mem, g < d.nG)
+    (hρ : ∀ ρ ∈ d.roles, ρ < 8) (r : Nat) (hr : r ≤ 9) (x : Val) (hx : x.length = d.nP)
+    (y : Val) (hy : y.length = d.nG) :
+    Grp.groupSum (declPop d) x none = .ok (RuleSys.f1 d 1 x) ∧
+    Grp.project (declPop d) y 0 none = .ok (RuleSys.f1 d 2 y) ∧
+    Grp.groupSum (declPop d) x (roleOfDigit r) = .ok (RuleSys.f1 d (10 + r) x) ∧
+    Grp.nbPersons (declPop d) (roleOfDigit r) = .ok (RuleSys.f1 d (30 + r) x) ∧
+    Grp.groupAnyI (declPop d) x (roleOfDigit r) = .ok ((RuleSys.f1 d (40 + r) x).map fun v => decide (v ≠ 0)) ∧
+    Grp.project (declPop d) y 0 (roleOfDigit r) = .ok (RuleSys.f1 d (80 + r) y) ∧
+    (d.nP ≠ 0 →
+      (∃ mx, Grp.groupMax (declPop d) x (roleOfDigit r) = .ok mx ∧ mx.map eint0 = RuleSys.f1 d (50 + r) x) ∧
+      (∃ mn, Grp.groupMin (declPop d) x (roleOfDigit r) = .ok mn ∧ mn.map eint0 = RuleSys.f1 d (60 + r) x) ∧
+      Grp.groupAll (declPop d) (x.map fun v => decide (v ≠ 0)) (roleOfDigit r)
+        = .ok ((RuleSys.f1 d (70 + r) x).map fun v => decide (v ≠ 0))) :=
+  f1_is_group_model d hm hg hρ r hr x hx y hy
+
+/-- `value_from_person(x, role)` (operation 20 + r) for a role held at most once per group -/
+theorem C11_from_person_is_the_group_model (d : Decl) (hm : d.mem.length = d.nP) (hg : ∀ g ∈ d.mem, g < d.nG)
+    (hρ : ∀ ρ ∈ d.roles, ρ < 8) (r : Nat) (hr : r < 8) (x : Val) (hx : x.length = d.nP)
+    (hu : ∀ g, g < d.nG → (holderVals d r x g).length ≤ 1) :
+    Grp.valueFromPerson (declPop d) x ⟨r, [], some 1⟩ 0 = .ok (RuleSys.f1 d (20 + r) x) :=
+  f1_from_person_is_group_model d hm hg hρ r hr x hx hu
+
+/-- on the example: the hypotheses hold, and both models give the head's value per household -/
+example : c11D.mem.length = c11D.nP ∧ (∀ g ∈ c11D.mem, g < c11D.nG) ∧ (∀ ρ ∈ c11D.roles, ρ < 8) ∧
+    (∀ g, g < c11D.nG → (holderVals c11D 2 [10, 20, 30, 40, 50] g).length ≤ 1) ∧
+    Grp.valueFromPerson (declPop c11D) [10, 20, 30, 40, 50] ⟨2, [], some 1⟩ 0 = .ok [50, 10, 40] ∧
+    RuleSys.f1 c11D 22 [10, 20, 30, 40, 50] = [50, 10, 40] ∧
+    Grp.groupMax (declPop c11E) [5, 7, 30] (roleOfDigit 1) = .ok [.negInf, .fin 30, .negInf] ∧
+    RuleSys.f1 c11E 51 [5, 7, 30] = [0, 30, 0] := by decide
+
+/-- MERGE FOR THE ORDER-DEPENDENT OPERATIONS.  `value_nth_person` (and `value_from_first_person`,
+    `household.first_person`) are defined by the storage order of the persons, so they are outside
+    the expression language and outside the permutation clause; but a situation keeps its internal
+    person order inside a merged population, whatever is interleaved with it.  For every closed
+    part whose persons are listed in merged order (`ClosedPop`: any groups order), the part as a
+    population of its own (`restrictPop`) has in every group the same members with the same values
+    in the same order, hence the same n-th member for every n: the part's answer is the merged
+    answer read at the part's groups.  (Model: `Group.lean`, the transcription of
+    `GroupPopulation`, whose `members_position` is the counter loop; a position computed through
+    an unstable sort of the whole population breaks exactly this.) -/
+theorem C11_nth_merge {α : Type} (p : Grp.Pop) (sel gsel : List Nat) (hcl : ClosedPop p sel gsel)
+    (hg : ∀ m ∈ p.ms, m.group < p.n) (a : List α) (d : α) (ha : a.length = p.ms.length) (hne : sel ≠ []) (k : Nat) :
+    (∀ g', g' < gsel.length →
+      Grp.valuesOf (restrictPop p sel gsel) none g' (selArr sel a d) = Grp.valuesOf p none (gsel.getD g' 0) a) ∧
+    (∃ r, Grp.valueNth p k a d = .ok r ∧ r.length = p.n ∧
+      Grp.valueNth (restrictPop p sel gsel) k (selArr sel a d) d = .ok (selArr gsel r d)) ∧
+    (∃ r, Grp.valueFromFirst p a d = .ok r ∧
+      Grp.valueFromFirst (restrictPop p sel gsel) (selArr sel a d) d = .ok (selArr gsel r d)) := by
+  refine ⟨fun g' hg' => valuesOf_restrictPop p sel gsel hcl a d ha g' hg',
+    valueNth_restrictPop p sel gsel hcl hg a d ha hne k, ?_⟩
+  obtain ⟨r, h1, _, h2⟩ := valueNth_restrictPop p sel gsel hcl hg a d ha hne 0
+  exact ⟨r, h1, h2⟩
+
+/-- eight persons, households 0, 2 (situation A) and 1 (situation B) interleaved, a household
+    without member last: the second member of every household, merged and for each part alone -/
+def c11P : Grp.Pop := ⟨4, [⟨0, 3⟩, ⟨1, 3⟩, ⟨2, 2⟩, ⟨0, 2⟩, ⟨1, 2⟩, ⟨2, 3⟩, ⟨0, 2⟩, ⟨1, 0⟩]⟩
+
+example : ClosedPop c11P [0, 2, 3, 5, 6] [0, 2, 3] ∧ ClosedPop c11P [1, 4, 7] [1] ∧
+    Grp.valueNth c11P 1 [1, 2, 3, 4, 5, 6, 7, 8] (-7 : Int) = .ok [4, 5, 6, -7] ∧
+    Grp.valueNth (restrictPop c11P [0, 2, 3, 5, 6] [0, 2, 3]) 1 (selArr [0, 2, 3, 5, 6] [1, 2, 3, 4, 5, 6, 7, 8] (-7 : Int)) (-7)
+      = .ok [4, 6, -7] ∧
+    Grp.valueNth (restrictPop c11P [1, 4, 7] [1]) 1 (selArr [1, 4, 7] [1, 2, 3, 4, 5, 6, 7, 8] (-7 : Int)) (-7) = .ok [5] := by
+  decide
+
 /-- MERGE.  For every closed selection — in particular every order-preserving one, i.e. any
     situation of a population made of any number of unrelated situations interleaved in any
     order — the part simulated alone means, for every variable, period and fuel, exactly what the
